@@ -23,8 +23,10 @@ Part 5  `Sim`         the scripted whole-graph interpreter used by the correspon
 -/
 import TbbVerif.Core.Sched
 import TbbVerif.Core.Proto
+import TbbVerif.Generated.C14
 
 namespace TbbVerif.C14
+open TbbVerif.Generated.C14 (tryputFree occupyFree doneFree fwdFree doneDecrement fwdClearsBusy regPredSetsBusy)
 
 /-! ## Part 1: function_input_base -/
 
@@ -123,7 +125,7 @@ def step (s : FuncInput) : FOp → FuncInput × FOut
     if s.maxc = 0 then
       -- try_put_task_impl: `create_body_task(t)` without touching the node state
       ({ s with running := m :: s.running, accepted := m :: s.accepted }, .run m)
-    else if s.conc < s.maxc then
+    else if tryputFree s.conc s.maxc then
       ({ s with conc := s.conc + 1, running := m :: s.running, accepted := m :: s.accepted }, .run m)
     else
       match s.queue with
@@ -132,7 +134,7 @@ def step (s : FuncInput) : FOp → FuncInput × FOut
   | .occupy m =>
     if s.maxc = 0 then
       ({ s with running := m :: s.running, accepted := m :: s.accepted }, .run m)
-    else if s.conc < s.maxc then
+    else if occupyFree s.conc s.maxc then
       ({ s with conc := s.conc + 1, running := m :: s.running, accepted := m :: s.accepted }, .run m)
     else (s, .rejected)
   | .done m ans =>
@@ -140,22 +142,22 @@ def step (s : FuncInput) : FOp → FuncInput × FOut
       let s1 := { s with running := s.running.erase m, finished := m :: s.finished }
       if s.maxc = 0 then (s1, .next none [])
       else
-        let s2 := { s1 with conc := s1.conc - 1 }
-        if s2.conc < s2.maxc then
+        let s2 := { s1 with conc := s1.conc - doneDecrement }
+        if doneFree s2.conc s2.maxc then
           let r := pqr s2 ans
           (r.1, .next r.2.1 r.2.2)
         else (s2, .next none [])
     else (s, .bad)
   | .fwd ans =>
-    if s.conc < s.maxc then
+    if fwdFree s.conc s.maxc then
       let r := pqr s ans
       match r.2.1 with
       | some v => (r.1, .next (some v) r.2.2)
-      | none => ({ r.1 with fwdBusy := false }, .next none r.2.2)
-    else ({ s with fwdBusy := false }, .next none [])
+      | none => ({ r.1 with fwdBusy := r.1.fwdBusy && !fwdClearsBusy }, .next none r.2.2)
+    else ({ s with fwdBusy := s.fwdBusy && !fwdClearsBusy }, .next none [])
   | .regPred p =>
     let s1 := { s with preds := s.preds ++ [p] }
-    if s.fwdBusy then (s1, .reg false) else ({ s1 with fwdBusy := true }, .reg true)
+    if s.fwdBusy then (s1, .reg false) else ({ s1 with fwdBusy := regPredSetsBusy }, .reg true)
   | .remPred p => ({ s with preds := cacheRemove p s.preds }, .ok)
 
 def new (maxc : Nat) (queueing : Bool) : FuncInput :=
@@ -322,6 +324,8 @@ structure PullPair where
   putTasks : Nat := 0
   /-- pending `forward_task_bypass` tasks of R -/
   fwdTasks : Nat := 0
+  /-- ghost: foreign messages R accepted from external `try_put`s -/
+  ext : List Nat := []
 deriving Repr, DecidableEq, Inhabited
 
 inductive POp where
@@ -361,7 +365,7 @@ def fwdLoop : Nat → PullPair → PullPair
   | 0, p => p
   | fuel + 1, p =>
     let (ans, s1, sp) := p.pull
-    let free := decide (p.r.conc < p.r.maxc)
+    let free := fwdFree p.r.conc p.r.maxc
     let (r1, out) := p.r.step (.fwd (if free then ans else []))
     let p1 : PullPair := if free then { p with s := s1, r := r1, putTasks := p.putTasks + sp } else { p with r := r1 }
     match out with
@@ -399,13 +403,13 @@ def step (p : PullPair) : POp → PullPair × Bool
   | .bodyDone m =>
     if m ∈ p.r.running then
       let (ans, s1, sp) := p.pull
-      let free := decide (p.r.maxc ≠ 0 ∧ p.r.conc - 1 < p.r.maxc)
+      let free := decide (p.r.maxc ≠ 0) && doneFree (p.r.conc - doneDecrement) p.r.maxc
       let (r1, _) := p.r.step (.done m (if free then ans else []))
       (if free then { p with s := s1, r := r1, putTasks := p.putTasks + sp } else { p with r := r1 }, true)
     else (p, false)
   | .extPut m =>
     let (r1, out) := p.r.step (.tryput m)
-    ({ p with r := r1 }, out != .rejected)
+    ({ p with r := r1, ext := if out != .rejected then m :: p.ext else p.ext }, out != .rejected)
 
 /-- S produces the ids `first … stop-1`; R is a rejecting node with concurrency limit `maxc`;
 the edge S→R starts in push mode (`make_edge`). -/
@@ -542,5 +546,663 @@ def mach (node : Nat → FuncInput) (succs : Nat → List Nat) : Mach Net NOp Bo
   { init := init node succs, step := step }
 
 end Net
+
+/-! ## Part 5: the scripted whole-graph interpreter (correspondence with the real node classes)
+
+`Sim` mirrors harness/c14/mock.cpp: the REAL node classes of flow_graph.h run on a mock `r1` task pool in which
+the script decides which pending task runs next.  One script line = one external call or one task executed to
+completion (bodies of lightweight nodes run inline, as in the code).  Node operations are the functions of
+Parts 1-2 (`FuncInput.step`, `bcastM`, `InputNode.step`, `ContinueNode.step`). -/
+
+inductive Kind where
+  | func (lw : Bool)
+  | mfunc
+  | input
+  | cont (lw : Bool)
+  | sink
+  | bc
+  /-- a pass-through receiver in front of function node `tgt` (see `Sim.regPred`) -/
+  | proxy (tgt : Nat)
+deriving Repr, DecidableEq, Inhabited
+
+inductive Task where
+  | body (n m : Nat)
+  | fwd (n : Nat)
+  | put (n : Nat)
+  | cbody (n : Nat)
+deriving Repr, DecidableEq, Inhabited
+
+structure SNode where
+  kind : Kind
+  fi : FuncInput := FuncInput.new 0 false
+  inp : InputNode := InputNode.new 0 0
+  cn : ContinueNode := { predCount := 0 }
+  /-- `function_output::my_successors` (func, mfunc port 0, cont, bc); input nodes use `inp.succs` -/
+  succs : List Nat := []
+  /-- scripted receiver: rejects `m` when `rejmod > 0 ∧ m % rejmod = 0`; answer of `register_predecessor` -/
+  rejmod : Nat := 0
+  regok : Bool := false
+  spreds : List Nat := []
+  sres : Bool := false
+  /-- continue node: body invocations so far (the body returns `1000 * id + runs`) -/
+  runs : Nat := 0
+  /-- proxy: the task armed to run at the next `register_predecessor` -/
+  hook : Option Task := none
+deriving Repr, Inhabited
+
+structure Sim where
+  nodes : List SNode := []
+  pool : List Task := []
+  begun : List Task := []
+  vertex : Int := 0
+  resv : Nat := 0
+  cancelled : Bool := false
+  exc : Bool := false
+  ev : List String := []
+  going : Bool := false
+deriving Repr, Inhabited
+
+namespace Sim
+
+def node (s : Sim) (n : Nat) : SNode := s.nodes[n]?.getD { kind := .sink }
+def setNode (s : Sim) (n : Nat) (nd : SNode) : Sim := { s with nodes := s.nodes.set n nd }
+def log (s : Sim) (e : String) : Sim := { s with ev := e :: s.ev }
+def spawn (s : Sim) (t : Task) : Sim := { s with pool := s.pool ++ [t], vertex := s.vertex + 1 }
+
+def isFunc (k : Kind) : Bool := match k with | .func _ => true | .mfunc => true | _ => false
+
+/-- `sender::try_get` of node `p` (only input nodes override it). -/
+def tryGet (s : Sim) (p : Nat) : Sim × Option Nat :=
+  let nd := s.node p
+  match nd.kind with
+  | .input =>
+    match nd.inp.step .tryGet with
+    | (i1, .res item sp) =>
+      let s1 := s.setNode p { nd with inp := i1 }
+      (if sp then s1.spawn (.put p) else s1, item)
+    | (_, .bad) => (s, none)
+  | _ => (s, none)
+
+/-- `register_successor(*p, r)` -/
+def regSucc (s : Sim) (p r : Nat) : Sim :=
+  let nd := s.node p
+  match nd.kind with
+  | .input =>
+    match nd.inp.step (.regSucc r) with
+    | (i1, .res _ sp) =>
+      let s1 := s.setNode p { nd with inp := i1 }
+      if sp then s1.spawn (.put p) else s1
+    | (_, .bad) => s
+  | _ => s.setNode p { nd with succs := succAdd nd.succs r }
+
+/-- the `try_get` rounds of `predecessor_cache::get_item` of node `n` against the real predecessors -/
+def pullAns (s : Sim) (n : Nat) : List Nat → Sim × List (Option Nat)
+  | [] => (s, [])
+  | p :: ps =>
+    match s.tryGet p with
+    | (s1, some v) => (s1, [some v])
+    | (s1, none) =>
+      let r := pullAns (s1.regSucc p n) n ps
+      (r.1, none :: r.2)
+
+/-- `try_get_postponed_task` → `app_body_bypass` of function node `n` after the body of `m`. -/
+def bodyDone (s : Sim) (n m : Nat) : Sim :=
+  let fi := (s.node n).fi
+  let will := fi.queue.isNone && fi.maxc != 0 && doneFree (fi.conc - doneDecrement) fi.maxc && decide (m ∈ fi.running)
+  let r := if will then s.pullAns n fi.preds else (s, [])
+  let nd := r.1.node n
+  match nd.fi.step (.done m r.2) with
+  | (f1, .next (some v) _) => (r.1.setNode n { nd with fi := f1 }).spawn (.body n v)
+  | (f1, _) => r.1.setNode n { nd with fi := f1 }
+
+def finalize (s : Sim) (t : Task) : Sim :=
+  { s with pool := s.pool.erase t, begun := s.begun.erase t, vertex := s.vertex - 1 }
+
+def FUEL : Nat := 64
+
+mutual
+/-- `r.try_put_task(m)`; the result says whether a task / SUCCESSFULLY_ENQUEUED came back. -/
+def tryPutTask : Nat → Sim → Nat → Nat → Sim × Bool
+  | 0, s, _, _ => (s, true)
+  | fuel + 1, s, r, m =>
+    let nd := s.node r
+    match nd.kind with
+    | .sink =>
+      let acc := !(nd.rejmod != 0 && m % nd.rejmod == 0)
+      (s.log s!"O{r}:{m}:{if acc then "a" else "r"}", acc)
+    | .proxy tgt => tryPutTask fuel s tgt m
+    | .func true =>
+      -- lightweight: occupy_concurrency, body inline
+      match nd.fi.step (.occupy m) with
+      | (f1, .run _) => (inlineBody fuel (s.setNode r { nd with fi := f1 }) r m, true)
+      | (_, _) =>
+        match nd.fi.step (.tryput m) with
+        | (f1, .run _) => ((s.setNode r { nd with fi := f1 }).spawn (.body r m), true)
+        | (f1, .queued) => (s.setNode r { nd with fi := f1 }, true)
+        | (_, _) => (s, false)
+    | .func false | .mfunc =>
+      match nd.fi.step (.tryput m) with
+      | (f1, .run _) => ((s.setNode r { nd with fi := f1 }).spawn (.body r m), true)
+      | (f1, .queued) => (s.setNode r { nd with fi := f1 }, true)
+      | (_, _) => (s, false)
+    | _ => (s, false)
+
+/-- `r.register_predecessor(src)` after a rejected offer.  A proxy first lets its armed task run (another
+thread completing a body of the target between the rejected `try_put_task` and `register_predecessor`). -/
+def regPred : Nat → Sim → Nat → Nat → Sim × Bool
+  | 0, s, _, _ => (s, false)
+  | fuel + 1, s, r, src =>
+    let nd := s.node r
+    if isFunc nd.kind then
+      match nd.fi.step (.regPred src) with
+      | (f1, .reg spawned) =>
+        let s1 := s.setNode r { nd with fi := f1 }
+        (if spawned then s1.spawn (.fwd r) else s1, true)
+      | (f1, _) => (s.setNode r { nd with fi := f1 }, true)
+    else match nd.kind with
+      | .sink => if nd.regok then (s.setNode r { nd with spreds := nd.spreds ++ [src] }, true) else (s, false)
+      | .proxy tgt =>
+        let s0 := s.setNode r { nd with hook := none }
+        let s1 := match nd.hook with
+          | some t =>
+            if s0.pool.contains t then
+              let s00 := if s0.cancelled || s0.begun.count t >= s0.pool.count t then s0 else { s0 with begun := t :: s0.begun }
+              execTask fuel s00 t false
+            else s0
+          | none => s0
+        regPred fuel s1 tgt src
+      | _ => (s, false)
+
+/-- one offer of `broadcast_cache::try_put_task` of sender `src` -/
+def offer : Nat → Nat → Nat → Sim → Nat → Sim × Resp
+  | fuel, src, m, s, r =>
+    match tryPutTask fuel s r m with
+    | (s1, true) => (s1, .accept)
+    | (s1, false) =>
+      match regPred fuel s1 r src with
+      | (s2, ok) => (s2, .reject ok)
+
+/-- `apply_body_impl_bypass` of function node `n`: body, `app_body_bypass`, broadcast of the output. -/
+def inlineBody : Nat → Sim → Nat → Nat → Sim
+  | 0, s, _, _ => s
+  | fuel + 1, s, n, m =>
+    let s1 := (s.log s!"B{n}:{m}").bodyDone n m
+    let t := bcastM (offer fuel n m) s1 (s1.node n).succs
+    t.1.setNode n { t.1.node n with succs := t.2.2 }
+
+/-- the dispatcher runs task `t` (`execute`), or `cancel`s it when the context is cancelled and `t` had not
+been taken yet; `thr`: the body throws. -/
+def execTask : Nat → Sim → Task → Bool → Sim
+  | 0, s, _, _ => s
+  | fuel + 1, s, t, thr =>
+  if s.cancelled && !(s.begun.contains t) then s.finalize t
+  else
+    match t with
+    | .body n m =>
+      let nd := s.node n
+      if thr then
+        ({ (s.log s!"B{n}:{m}!") with cancelled := true, exc := s.exc || !s.cancelled }).finalize t
+      else match nd.kind with
+        | .mfunc =>
+          let s1 := s.log s!"B{n}:{m}"
+          let t1 := bcastM (offer fuel n m) s1 (s1.node n).succs
+          let s2 := t1.1.setNode n { t1.1.node n with succs := t1.2.2 }
+          (s2.bodyDone n m).finalize t
+        | _ => (inlineBody fuel s n m).finalize t
+    | .fwd n =>
+      -- forward_task: repeat try_fwd until it fails
+      let rec loop : Nat → Sim → Sim
+        | 0, st => st
+        | k + 1, st =>
+          let nd := st.node n
+          let fi := nd.fi
+          let will := fi.queue.isNone && fwdFree fi.conc fi.maxc
+          let r := if will then st.pullAns n fi.preds else (st, [])
+          let nd1 := r.1.node n
+          match nd1.fi.step (.fwd r.2) with
+          | (f1, .next (some v) _) => loop k ((r.1.setNode n { nd1 with fi := f1 }).spawn (.body n v))
+          | (f1, _) => r.1.setNode n { nd1 with fi := f1 }
+      (loop FUEL s).finalize t
+    | .put n =>
+      let nd := s.node n
+      let hadItem := nd.inp.hasItem
+      match nd.inp.step .reserveApply with
+      | (i1, .res (some v) _) =>
+        let s1 := s.setNode n { nd with inp := i1 }
+        let s1 := if hadItem then s1 else s1.log s!"G{n}:{v}"
+        let t1 := bcastM (offer fuel n v) s1 i1.succs
+        let nd2 := t1.1.node n
+        let i2 : InputNode := { nd2.inp with succs := t1.2.2 }
+        let acc := t1.2.1.any (fun o => o.2 = .accept)
+        match i2.step (if acc then .tryConsume else .tryRelease) with
+        | (i3, .res _ sp) =>
+          let s3 := t1.1.setNode n { nd2 with inp := i3 }
+          (if sp then s3.spawn (.put n) else s3).finalize t
+        | (i3, .bad) => (t1.1.setNode n { nd2 with inp := i3 }).finalize t
+      | (i1, _) =>
+        let s1 := s.setNode n { nd with inp := i1 }
+        let s1 := if !nd.inp.reserved && !hadItem then s1.log s!"G{n}:stop" else s1
+        s1.finalize t
+    | .cbody n =>
+      let nd := s.node n
+      let v := 1000 * n + nd.runs
+      if thr then
+        ({ (s.log s!"C{n}:{v}!") with cancelled := true, exc := s.exc || !s.cancelled }).finalize t
+      else
+        let s1 := (s.setNode n { nd with runs := nd.runs + 1 }).log s!"C{n}:{v}"
+        let t1 := bcastM (offer fuel n v) s1 (s1.node n).succs
+        (t1.1.setNode n { t1.1.node n with succs := t1.2.2 }).finalize t
+end
+
+/-- `successors().try_put_task(m)` of node `n` (func, mfunc port, cont, bc). -/
+def bcastFrom (s : Sim) (n m : Nat) : Sim × Bool :=
+  let t := bcastM (offer FUEL n m) s (s.node n).succs
+  (t.1.setNode n { t.1.node n with succs := t.2.2 }, t.2.1.any (fun o => o.2 = .accept))
+
+/-- `continue_receiver::try_put_task` of node `n`. -/
+def contPut (s : Sim) (n : Nat) : Sim :=
+  let nd := s.node n
+  match nd.cn.step .put with
+  | (c1, false) => s.setNode n { nd with cn := c1 }
+  | (c1, true) =>
+    let s1 := s.setNode n { nd with cn := c1 }
+    match nd.kind with
+    | .cont true =>
+      let v := 1000 * n + nd.runs
+      let s2 := (s1.setNode n { s1.node n with runs := nd.runs + 1 }).log s!"C{n}:{v}"
+      (s2.bcastFrom n v).1
+    | _ => s1.spawn (.cbody n)
+
+/-- external `try_put(continue_msg)` to a continue node or a broadcast node of continue messages -/
+def cput (s : Sim) (n : Nat) : Sim × Bool :=
+  let nd := s.node n
+  match nd.kind with
+  | .cont _ => (s.contPut n, true)
+  | .bc => (nd.succs.foldl (fun st r => st.contPut r) s, true)
+  | _ => (s, false)
+
+/-- `graph::reset()` (rf_reset_protocol) of node `n` -/
+def resetNode (s : Sim) (n : Nat) : Sim :=
+  let nd := s.node n
+  match nd.kind with
+  | .func _ | .mfunc =>
+    -- my_predecessors.reset(): every pull edge goes back to push (the graph is inactive: nothing is spawned)
+    let s1 := nd.fi.preds.foldl (fun st p =>
+      let pn := st.node p
+      match pn.kind with
+      | .input => st.setNode p { pn with inp := { pn.inp with succs := succAdd pn.inp.succs n } }
+      | _ => st.setNode p { pn with succs := succAdd pn.succs n }) s
+    let nd1 := s1.node n
+    s1.setNode n { nd1 with fi := { nd1.fi with conc := 0, queue := nd1.fi.queue.map (fun _ => []), preds := [],
+                                                fwdBusy := false, running := [] } }
+  | .input => s.setNode n { nd with inp := { nd.inp with active := false, reserved := false, hasItem := false } }
+  | .cont _ => s.setNode n { nd with cn := { nd.cn with curCount := 0 } }
+  | _ => s
+
+/-! ### line protocol -/
+
+def showIds (l : List Nat) : String := if l.isEmpty then "-" else ",".intercalate (l.map toString)
+def b01 (b : Bool) : String := if b then "1" else "0"
+
+def taskName : Task → String
+  | .body n m => s!"b{n}.{m}"
+  | .fwd n => s!"f{n}"
+  | .put n => s!"p{n}"
+  | .cbody n => s!"c{n}"
+
+def parseTask (w : String) : Option Task :=
+  match w.toList with
+  | 'b' :: rest =>
+    match (String.ofList rest).splitOn "." with
+    | [a, b] => do let n ← a.toNat?; let m ← b.toNat?; pure (.body n m)
+    | _ => none
+  | 'f' :: rest => (String.ofList rest).toNat?.map .fwd
+  | 'p' :: rest => (String.ofList rest).toNat?.map .put
+  | 'c' :: rest => (String.ofList rest).toNat?.map .cbody
+  | _ => none
+
+def showNode (i : Nat) (nd : SNode) : String :=
+  match nd.kind with
+  | .func _ | .mfunc =>
+    let q := match nd.fi.queue with | none => "x" | some l => showIds l
+    s!"{i}:c{nd.fi.conc} q{q} p{showIds nd.fi.preds} f{b01 nd.fi.fwdBusy} s{showIds nd.succs}"
+  | .input =>
+    s!"{i}:a{b01 nd.inp.active} r{b01 nd.inp.reserved} h{b01 nd.inp.hasItem} i{if nd.inp.hasItem then nd.inp.item else 0} s{showIds nd.inp.succs}"
+  | .cont _ => s!"{i}:pc{nd.cn.predCount} cc{nd.cn.curCount} s{showIds nd.succs}"
+  | .sink => s!"{i}:p{showIds nd.spreds}"
+  | .bc => s!"{i}:s{showIds nd.succs}"
+  | .proxy tgt => s!"{i}:t{tgt} h{match nd.hook with | some t => taskName t | none => "-"}"
+
+def insertSorted (x : String) : List String → List String
+  | [] => [x]
+  | y :: ys => if x < y then x :: y :: ys else y :: insertSorted x ys
+
+def sortStrs (l : List String) : List String := l.foldl (fun acc x => insertSorted x acc) []
+
+def render (s : Sim) (res : String) : String :=
+  let ev := if s.ev.isEmpty then "-" else " ".intercalate s.ev.reverse
+  let pool := if s.pool.isEmpty then "-" else " ".intercalate (sortStrs (s.pool.map taskName))
+  let rec nodesStr (i : Nat) : List SNode → List String
+    | [] => []
+    | nd :: rest => showNode i nd :: nodesStr (i + 1) rest
+  s!"{res} | {ev} | {pool} | v={s.vertex} c={b01 s.cancelled} | {" ; ".intercalate (nodesStr 0 s.nodes)}"
+
+def bad (s : Sim) : Sim × String := (s, "bad-op")
+
+def validNode (s : Sim) (n : Nat) : Bool := n < s.nodes.length
+
+/-- one script line -/
+def stepLine (s0 : Sim) (ws : List String) : Sim × String :=
+  let s := { s0 with ev := [] }
+  let fin (st : Sim) (res : String) : Sim × String := (st, render st res)
+  match ws with
+  | ["node", id, "func", maxc, pol, lw] =>
+    match id.toNat?, maxc.toNat? with
+    | some i, some c =>
+      if s.going || i != s.nodes.length || !(pol = "q" || pol = "r") || !(lw = "0" || lw = "1") || c > 1000 then bad s
+      else ({ s with nodes := s.nodes ++ [{ kind := .func (lw = "1"), fi := FuncInput.new c (pol = "q") }] }, "ok")
+    | _, _ => bad s
+  | ["node", id, "mfunc", maxc, pol] =>
+    match id.toNat?, maxc.toNat? with
+    | some i, some c =>
+      if s.going || i != s.nodes.length || !(pol = "q" || pol = "r") || c > 1000 then bad s
+      else ({ s with nodes := s.nodes ++ [{ kind := .mfunc, fi := FuncInput.new c (pol = "q") }] }, "ok")
+    | _, _ => bad s
+  | ["node", id, "input", first, stop] =>
+    match id.toNat?, first.toNat?, stop.toNat? with
+    | some i, some a, some b =>
+      if s.going || i != s.nodes.length || a > 100000 || b > 100000 then bad s
+      else ({ s with nodes := s.nodes ++ [{ kind := .input, inp := InputNode.new a b }] }, "ok")
+    | _, _, _ => bad s
+  | ["node", id, "cont", lw] =>
+    match id.toNat? with
+    | some i =>
+      if s.going || i != s.nodes.length || !(lw = "0" || lw = "1") then bad s
+      else ({ s with nodes := s.nodes ++ [{ kind := .cont (lw = "1") }] }, "ok")
+    | _ => bad s
+  | ["node", id, "sink", rejmod, regok] =>
+    match id.toNat?, rejmod.toNat? with
+    | some i, some r =>
+      if s.going || i != s.nodes.length || !(regok = "0" || regok = "1") || r > 1000 then bad s
+      else ({ s with nodes := s.nodes ++ [{ kind := .sink, rejmod := r, regok := (regok = "1") }] }, "ok")
+    | _, _ => bad s
+  | ["node", id, "proxy", tgt] =>
+    match id.toNat?, tgt.toNat? with
+    | some i, some t =>
+      if s.going || i != s.nodes.length || t > 1000 then bad s
+      else ({ s with nodes := s.nodes ++ [{ kind := .proxy t }] }, "ok")
+    | _, _ => bad s
+  | ["hook", n, t] =>
+    match n.toNat?, parseTask t with
+    | some i, some tk =>
+      let okTask := match (s.node i).kind, tk with
+        | .proxy tgt, .body n _ => n == tgt
+        | _, _ => false
+      if !s.going || !s.validNode i || !okTask then bad s
+      else fin (s.setNode i { s.node i with hook := some tk }) "ok"
+    | _, _ => bad s
+  | ["node", id, "bc"] =>
+    match id.toNat? with
+    | some i =>
+      if s.going || i != s.nodes.length then bad s
+      else ({ s with nodes := s.nodes ++ [{ kind := .bc }] }, "ok")
+    | _ => bad s
+  | ["edge", a, b] =>
+    match a.toNat?, b.toNat? with
+    | some p, some r =>
+      if s.going || !s.validNode p || !s.validNode r then bad s
+      else
+        let pk := (s.node p).kind
+        let rk := (s.node r).kind
+        let intSender := isFunc pk || pk = .input || (match pk with | .cont _ => true | _ => false)
+        let intRecv := isFunc rk || rk = .sink || (match rk with | .proxy _ => true | _ => false)
+        let contRecv := match rk with | .cont _ => true | _ => false
+        if intSender && intRecv then (s.regSucc p r, "ok")
+        else if pk = .bc && contRecv then
+          -- successor_cache<continue_msg>::register_successor also registers the predecessor
+          let s1 := s.regSucc p r
+          let nd := s1.node r
+          (s1.setNode r { nd with cn := (nd.cn.step .regPred).1 }, "ok")
+        else bad s
+    | _, _ => bad s
+  | ["go"] =>
+    let okProxies := s.nodes.all (fun nd => match nd.kind with | .proxy t => isFunc (s.node t).kind && t < s.nodes.length | _ => true)
+    if s.going || !okProxies then bad s else fin { s with going := true } "ok"
+  | ["put", n, m] =>
+    match n.toNat?, m.toNat? with
+    | some r, some v =>
+      if !s.going || !s.validNode r || v > 1000000 || !(isFunc (s.node r).kind || (s.node r).kind = .sink) then bad s
+      else
+        let t := tryPutTask FUEL s r v
+        fin t.1 (b01 t.2)
+    | _, _ => bad s
+  | ["cput", n] =>
+    match n.toNat? with
+    | some r =>
+      if !s.going || !s.validNode r then bad s
+      else match s.cput r with
+        | (s1, true) => fin s1 "1"
+        | (_, false) => bad s
+    | _ => bad s
+  | ["activate", n] =>
+    match n.toNat? with
+    | some i =>
+      if !s.going || !s.validNode i || (s.node i).kind != .input then bad s
+      else
+        let nd := s.node i
+        match nd.inp.step .activate with
+        | (i1, .res _ sp) =>
+          let s1 := s.setNode i { nd with inp := i1 }
+          fin (if sp then s1.spawn (.put i) else s1) "ok"
+        | _ => bad s
+    | _ => bad s
+  | ["begin", t] =>
+    match parseTask t with
+    | some tk =>
+      if !s.going || s.begun.count tk >= s.pool.count tk || s.cancelled then bad s
+      else fin { s with begun := tk :: s.begun } "ok"
+    | none => bad s
+  | ["end", t] =>
+    match parseTask t with
+    | some tk => if !s.going || !s.pool.contains tk then bad s else fin (Sim.execTask FUEL s tk false) "ok"
+    | none => bad s
+  | ["run", t] =>
+    match parseTask t with
+    | some tk =>
+      if !s.going || !s.pool.contains tk then bad s
+      else
+        let s1 := if s.cancelled || s.begun.count tk >= s.pool.count tk then s else { s with begun := tk :: s.begun }
+        fin (Sim.execTask FUEL s1 tk false) "ok"
+    | none => bad s
+  | ["throw", t] =>
+    match parseTask t with
+    | some tk =>
+      let okKind := match tk with
+        | .body n _ => isFunc (s.node n).kind && (s.node n).kind != .func true
+        | .cbody _ => true
+        | _ => false
+      if !s.going || !s.pool.contains tk || !okKind || (s.cancelled && !s.begun.contains tk) then bad s
+      else
+        let s1 := if s.begun.contains tk then s else { s with begun := tk :: s.begun }
+        fin (Sim.execTask FUEL s1 tk true) "ok"
+    | none => bad s
+  | ["cancel"] => if !s.going then bad s else fin { s with cancelled := true } "ok"
+  | ["reserve"] => if !s.going then bad s else fin { s with resv := s.resv + 1, vertex := s.vertex + 1 } "ok"
+  | ["release"] =>
+    if !s.going || s.resv = 0 then bad s else fin { s with resv := s.resv - 1, vertex := s.vertex - 1 } "ok"
+  | ["wfa"] =>
+    if !s.going then bad s
+    else if s.vertex != 0 then fin s "blocked"
+    else
+      let res := if s.exc then "ret exc" else if s.cancelled then "ret cancelled" else "ret"
+      fin { s with cancelled := false, exc := false } res
+  | ["reset"] =>
+    if !s.going || !s.pool.isEmpty || s.vertex != 0 then bad s
+    else
+      let s1 := (List.range s.nodes.length).foldl (fun st n => st.resetNode n) { s with cancelled := false, exc := false }
+      fin s1 "ok"
+  | ["mode", n, rejmod] =>
+    match n.toNat?, rejmod.toNat? with
+    | some i, some r =>
+      if !s.going || !s.validNode i || (s.node i).kind != .sink || r > 1000 then bad s
+      else fin (s.setNode i { s.node i with rejmod := r }) "ok"
+    | _, _ => bad s
+  | ["sget", n] =>
+    match n.toNat? with
+    | some i =>
+      let nd := s.node i
+      if !s.going || !s.validNode i || nd.kind != .sink || nd.sres then bad s
+      else match nd.spreds with
+        | [] => bad s
+        | p :: ps =>
+          match s.tryGet p with
+          | (s1, some v) => fin (s1.log s!"T{i}:{v}") "1"
+          | (s1, none) =>
+            -- the probe failed: give the edge back (as predecessor_cache::get_item does)
+            let s2 := (s1.log s!"T{i}:-").regSucc p i
+            fin (s2.setNode i { s2.node i with spreds := ps }) "0"
+    | _ => bad s
+  | ["sres", n] =>
+    match n.toNat? with
+    | some i =>
+      let nd := s.node i
+      if !s.going || !s.validNode i || nd.kind != .sink || nd.sres then bad s
+      else match nd.spreds with
+        | [] => bad s
+        | p :: _ =>
+          let pn := s.node p
+          if pn.kind != .input then fin (s.log s!"R{i}:-") "0"
+          else match pn.inp.step .tryReserve with
+            | (i1, .res (some v) _) =>
+              let s1 := (s.setNode p { pn with inp := i1 }).log s!"R{i}:{v}"
+              fin (s1.setNode i { s1.node i with sres := true }) "1"
+            | (i1, _) => fin ((s.setNode p { pn with inp := i1 }).log s!"R{i}:-") "0"
+    | _ => bad s
+  | [op, n] =>
+    if op = "srel" || op = "scon" then
+      match n.toNat? with
+      | some i =>
+        let nd := s.node i
+        if !s.going || !s.validNode i || nd.kind != .sink || !nd.sres then bad s
+        else match nd.spreds with
+          | [] => bad s
+          | p :: _ =>
+            let pn := s.node p
+            match pn.inp.step (if op = "srel" then .tryRelease else .tryConsume) with
+            | (i1, .res _ sp) =>
+              let s1 := s.setNode p { pn with inp := i1 }
+              let s2 := if sp then s1.spawn (.put p) else s1
+              fin (s2.setNode i { s2.node i with sres := false }) "ok"
+            | (_, .bad) => bad s
+      | none => bad s
+    else bad s
+  | _ => bad s
+
+def driver : Proto.Driver := { σ := Sim, init := {}, step := stepLine }
+
+end Sim
+
+/-! ### small line drivers for the cache classes and for `Net` -/
+
+/-- `c14cache`: a real `broadcast_cache<int>` / `round_robin_cache<int>` with scripted receivers.
+`bc <resp…>` / `rr <resp…>`: one `try_put_task` against successors `0 … k-1` (all registered, in order) that
+answer `a` (accept), `t` (reject, register_predecessor true), `f` (reject, register_predecessor false).
+Output: offers made, remaining successors. -/
+def cacheLine (ws : List String) : String :=
+  match ws with
+  | kind :: resps =>
+    if !(kind = "bc" || kind = "rr") || resps.length > 64 then "bad-op"
+    else
+      match resps.mapM (fun w => if w = "a" then some Resp.accept else if w = "t" then some (Resp.reject true)
+                                 else if w = "f" then some (Resp.reject false) else none) with
+      | none => "bad-op"
+      | some rs =>
+        let succs := List.range rs.length
+        let offer : Unit → Nat → Unit × Resp := fun _ r => ((), rs[r]?.getD .accept)
+        let t := if kind = "bc" then bcastM offer () succs else rrM offer () succs
+        let sh (r : Resp) : String := match r with | .accept => "a" | .reject true => "t" | .reject false => "f"
+        let offers := if t.2.1.isEmpty then "-" else " ".intercalate (t.2.1.map (fun o => s!"{o.1}{sh o.2}"))
+        s!"{offers} | {Sim.showIds t.2.2}"
+  | _ => "bad-op"
+
+def cacheDriver : Proto.Driver := Proto.pureDriver cacheLine
+
+/-- `c14net`: the `Net` machine of Part 4 behind a line protocol (graphs of non-lightweight function nodes).
+`node <id> <maxc> <q|r>`, `edge <a> <b>`, `go`; then `put n m`, `start n m`, `finish n m` (the body returns and the
+task delivers to all successors and finalizes), `drop n m`, `throw n m`, `cancel`, `reserve`, `release`.
+Output: `<0/1> | v=<vertex> c=<cancelled> | <id>:c<conc> q<queue> ; …`. -/
+structure NetDrv where
+  cfg : List (Nat × Bool) := []
+  edges : List (Nat × Nat) := []
+  net : Option Net := none
+
+namespace NetDrv
+
+def deliverAll : Nat → Net → Net
+  | 0, s => s
+  | k + 1, s => if s.dtasks.isEmpty then s else deliverAll k (s.step .deliver).1
+
+def render (d : NetDrv) (s : Net) (ok : Bool) : String :=
+  let rec go (i : Nat) : List (Nat × Bool) → List String
+    | [] => []
+    | _ :: rest =>
+      let f := s.node i
+      let q := match f.queue with | none => "x" | some l => Sim.showIds l
+      s!"{i}:c{f.conc} q{q}" :: go (i + 1) rest
+  s!"{Sim.b01 ok} | v={s.vertex} c={Sim.b01 s.cancelled} | {" ; ".intercalate (go 0 d.cfg)}"
+
+def stepLine (d : NetDrv) (ws : List String) : NetDrv × String :=
+  match d.net, ws with
+  | none, ["node", id, maxc, pol] =>
+    match id.toNat?, maxc.toNat? with
+    | some i, some c =>
+      if i != d.cfg.length || !(pol = "q" || pol = "r") || c > 1000 then (d, "bad-op")
+      else ({ d with cfg := d.cfg ++ [(c, decide (pol = "q"))] }, "ok")
+    | _, _ => (d, "bad-op")
+  | none, ["edge", a, b] =>
+    match a.toNat?, b.toNat? with
+    | some p, some r =>
+      if p >= d.cfg.length || r >= d.cfg.length || d.edges.contains (p, r) then (d, "bad-op")
+      else ({ d with edges := d.edges ++ [(p, r)] }, "ok")
+    | _, _ => (d, "bad-op")
+  | none, ["go"] =>
+    let node : Nat → FuncInput := fun i => match d.cfg[i]? with
+      | some (c, q) => FuncInput.new c q
+      | none => FuncInput.new 0 true
+    let succs : Nat → List Nat := fun p => (d.edges.filter (fun e => e.1 == p)).map Prod.snd
+    let s := Net.init node succs
+    ({ d with net := some s }, render d s true)
+  | some s, [op, a, b] =>
+    match a.toNat?, b.toNat? with
+    | some n, some m =>
+      if n >= d.cfg.length || m > 1000000 then (d, "bad-op")
+      else
+        let r : Option (Net × Bool) :=
+          if op = "put" then some (s.step (.put n m))
+          else if op = "start" then some (s.step (.start n m))
+          else if op = "finish" then
+            let t := s.step (.finish n m)
+            some (deliverAll 1000 t.1, t.2)
+          else if op = "drop" then some (s.step (.dropTask n m))
+          else if op = "throw" then some (s.step (.throw n m))
+          else none
+        match r with
+        | some (s1, ok) => ({ d with net := some s1 }, render d s1 ok)
+        | none => (d, "bad-op")
+    | _, _ => (d, "bad-op")
+  | some s, [op] =>
+    let r : Option (Net × Bool) :=
+      if op = "cancel" then some (s.step .cancel)
+      else if op = "reserve" then some (s.step .reserve)
+      else if op = "release" then some (s.step .release)
+      else none
+    match r with
+    | some (s1, ok) => ({ d with net := some s1 }, render d s1 ok)
+    | none => (d, "bad-op")
+  | _, _ => (d, "bad-op")
+
+def driver : Proto.Driver := { σ := NetDrv, init := {}, step := stepLine }
+
+end NetDrv
 
 end TbbVerif.C14
